@@ -52,16 +52,11 @@ pub fn run(mut config: Config) -> ::anyhow::Result<()> {
         config.socket_workers = available_parallelism().map(Into::into).unwrap_or(1);
     };
 
-    let num_sockets_per_worker =
-        if config.network.use_ipv4 { 1 } else { 0 } + if config.network.use_ipv6 { 1 } else { 0 };
-
     let state = State::default();
     let statistics = Statistics::new(&config);
     let connection_validator = ConnectionValidator::new(&config)?;
-    let priv_dropper = PrivilegeDropper::new(
-        config.privileges.clone(),
-        config.socket_workers * num_sockets_per_worker,
-    );
+    // One participant per socket worker: each waits once, after binding all its sockets
+    let priv_dropper = PrivilegeDropper::new(config.privileges.clone(), config.socket_workers);
     let (statistics_sender, statistics_receiver) = unbounded();
 
     update_access_list(&config.access_list, &state.access_list)?;
@@ -76,11 +71,7 @@ pub fn run(mut config: Config) -> ::anyhow::Result<()> {
         let statistics = statistics.socket[i].clone();
         let statistics_sender = statistics_sender.clone();
 
-        let mut priv_droppers = Vec::new();
-
-        for _ in 0..num_sockets_per_worker {
-            priv_droppers.push(priv_dropper.clone());
-        }
+        let priv_dropper = priv_dropper.clone();
 
         let handle = Builder::new()
             .name(format!("socket-{:02}", i + 1))
@@ -91,7 +82,7 @@ pub fn run(mut config: Config) -> ::anyhow::Result<()> {
                     statistics,
                     statistics_sender,
                     connection_validator,
-                    priv_droppers,
+                    priv_dropper,
                 )
             })
             .with_context(|| "spawn socket worker")?;
